@@ -288,6 +288,10 @@ class Report:
         self.known = [k for k in load_known() if k.get("property") == prop and "signature" in k]
 
     def add_model(self, res, label=None):
+        if res.get("cached"):
+            # behaviours generated by TLC in an earlier run (same spec hash): not explored in this run
+            self.extra["directed_generation"] = {"cached": True, "distinct_when_generated": res.get("distinct", 0)}
+            return
         self.states += res.get("distinct", 0)
         self.transitions += res.get("generated", 0)
         self.model_runs.append({"cfg": label or res.get("cfg"), "distinct": res.get("distinct", 0),
